@@ -53,6 +53,11 @@ def save_paths(ctx, cls):
             if kw.arg is None:
                 raise AnalysisError(f"{cls.name}.solver_state: **kwargs in constructor")
             v = kw.value
+            if isinstance(v, ast.Name):  # a sub-record built in a local first
+                ds = [s_ for s_ in ast.walk(fn) if isinstance(s_, ast.Assign) and len(s_.targets) == 1
+                      and isinstance(s_.targets[0], ast.Name) and s_.targets[0].id == v.id]
+                if len(ds) == 1:
+                    v = ds[0].value
             if isinstance(v, ast.Call) and isinstance(v.func, ast.Name):
                 walk(v, prefix + (kw.arg,))
             elif is_self_attr(v):
